@@ -196,10 +196,14 @@ func verifyFunc(prog *Program, fc *FuncContract) (res *FuncResult) {
 				vals = append(vals, st.vars[r])
 			}
 		}
-		fr.returns = append(fr.returns, &retRec{st: st.clone(), vals: vals})
+		fr.returns = append(fr.returns, &retRec{st: st.clone(), vals: vals, ndefer: -1})
 	}
 	for _, rr := range fr.returns {
-		for j := len(fr.defers) - 1; j >= 0; j-- {
+		nd := len(fr.defers)
+		if rr.ndefer >= 0 && rr.ndefer < nd {
+			nd = rr.ndefer // a return before a defer statement does not run it
+		}
+		for j := nd - 1; j >= 0; j-- {
 			fr.defers[j](rr.st)
 		}
 		for k, r := range fr.results {
